@@ -328,7 +328,12 @@ Definition read_file (s : st) (fi block off : Z) (len : nat) : res (list Z) :=
           end
       else Done tt s in
     match loaded with
-    | Done _ s => Done (firstn len (skipn (Z.to_nat off) (rd_buf (c_ s)))) s
+    | Done _ s =>
+        (* /repo 82c39a0: the last block of a file is short -- what lies beyond the bytes obtained from the file was not read:
+           if (data_length < 0 || block_offset + (cgulong_t)data_length > (cgulong_t)num_in_rd_block) FREAD_ERROR
+           (data_length is a length here, never negative; the int num_in_rd_block is converted to unsigned 64 bit) *)
+        if off + Z.of_nat len >? (num_in_rd (c_ s)) mod 2 ^ 64 then Fail FREAD_ERROR s
+        else Done (firstn len (skipn (Z.to_nat off) (rd_buf (c_ s)))) s
     | Fail e s => Fail e s
     | OutOfFuel => OutOfFuel
     end.
